@@ -21,7 +21,8 @@ Proof.
     + now apply IH.
 Qed.
 
-Lemma otf_all_ok_true : otf_all_ok = true.
+Lemma otf_all_ok_true :
+  forallb (fun se => forallb (fun le => pair_check_e se le) otf_lang_entries) gtab_scriptBcp47 = true.
 Proof. vm_compute. reflexivity. Qed.
 
 Lemma otf_tables_unique :
@@ -58,8 +59,7 @@ Lemma all_pairs_checked script bs lang bl :
   pair_check script bs lang bl = true.
 Proof.
   intros Hs Hl.
-  exact (forallb2_in (fun se le => pair_check (fst se) (snd se) (fst le) (snd le))
-                     gtab_scriptBcp47 (([], und) :: gtab_langBcp47) otf_all_ok_true
+  exact (forallb2_in pair_check_e gtab_scriptBcp47 otf_lang_entries otf_all_ok_true
                      (script, bs) (lang, bl) Hs Hl).
 Qed.
 
